@@ -122,13 +122,7 @@ fn explore_states(u: &[Request], depth: usize, cap: usize) -> Vec<ConfigState> {
     states
 }
 
-fn main() {
-    use prost::Message;
-    use std::io::{Read, Seek, SeekFrom};
-    let a: Vec<String> = std::env::args().collect();
-    let thorough = a.get(1).map(|s| s == "thorough").unwrap_or(false);
-    let depth = if thorough { 4 } else { 3 };
-    let cap = if thorough { 1500 } else { 400 };
+fn build_universes(thorough: bool) -> (Vec<Request>, Vec<Request>) {
     let mut u = universe(thorough);
     // health checks and a certificate on top of universe 1
     u.push(RequestType::SetHealthCheck(sozu_command_lib::proto::command::SetHealthCheck { cluster_id: "c1".into(), config: sozu_command_lib::proto::command::HealthCheckConfig { uri: "/health".into(), interval: 10, timeout: 5, healthy_threshold: 2, unhealthy_threshold: 3, expected_status: 200 } }).into());
@@ -199,6 +193,77 @@ fn main() {
         ordered.extend(base.into_iter().skip(4));
         u2 = ordered;
     }
+    (u, u2)
+}
+
+// C07 mode (unit N-reject): for every explored state S and every command r of the universes plus their "near misses"
+// (a removal whose address / id / path matches nothing, a frontend for an unknown listener, a duplicate add ...):
+// if S.dispatch(r) is refused, S must be exactly what it was — a rejected command leaves no trace.
+fn reject_mode(thorough: bool) {
+    use sozu_command_lib::proto::command::{RemoveCertificate, RequestTcpFrontend};
+    let depth = if thorough { 4 } else { 3 };
+    let cap = if thorough { 1500 } else { 400 };
+    let (u, u2) = build_universes(thorough);
+    let mut probes: Vec<Request> = u.iter().cloned().chain(u2.iter().cloned()).collect();
+    // near misses
+    let nowhere = SocketAddress::new_v4(127, 0, 0, 1, 9);
+    for c in ["c1", "c2", "ghost"] {
+        probes.push(RequestType::RemoveTcpFrontend(RequestTcpFrontend { cluster_id: c.into(), address: nowhere, tags: BTreeMap::new() }).into());
+        probes.push(RequestType::AddTcpFrontend(RequestTcpFrontend { cluster_id: c.into(), address: nowhere, tags: BTreeMap::new() }).into());
+        probes.push(RequestType::RemoveBackend(RemoveBackend { cluster_id: c.into(), backend_id: "b1".into(), address: nowhere }).into());
+        probes.push(RequestType::RemoveBackend(RemoveBackend { cluster_id: c.into(), backend_id: "nope".into(), address: SocketAddress::new_v4(10, 0, 0, 1, 1001) }).into());
+        probes.push(RequestType::RemoveCluster(c.into()).into());
+        probes.push(RequestType::RemoveHealthCheck(c.into()).into());
+        for (l, host, path) in [(SocketAddress::new_v4(127, 0, 0, 1, 8080), "a.example", "/nope"), (SocketAddress::new_v4(127, 0, 0, 1, 8080), "nope.example", "/"), (nowhere, "a.example", "/"), (SocketAddress::new_v4(127, 0, 0, 1, 8443), "a.example", "/nope")] {
+            let f = RequestHttpFrontend { cluster_id: Some(c.into()), address: l, hostname: host.into(), path: PathRule::prefix(path.to_string()), position: RulePosition::Tree.into(), ..Default::default() };
+            probes.push(RequestType::RemoveHttpFrontend(f.clone()).into());
+            probes.push(RequestType::RemoveHttpsFrontend(f.clone()).into());
+            probes.push(RequestType::AddHttpFrontend(f.clone()).into());
+            probes.push(RequestType::AddHttpsFrontend(f).into());
+        }
+    }
+    for (l, t) in [(nowhere, ListenerType::Http), (nowhere, ListenerType::Tcp), (nowhere, ListenerType::Https), (SocketAddress::new_v4(127, 0, 0, 1, 8080), ListenerType::Tcp), (SocketAddress::new_v4(127, 0, 0, 1, 5000), ListenerType::Http)] {
+        probes.push(RequestType::RemoveListener(RemoveListener { address: l, proxy: t.into() }).into());
+        probes.push(RequestType::ActivateListener(ActivateListener { address: l, proxy: t.into(), from_scm: false }).into());
+        probes.push(RequestType::DeactivateListener(sozu_command_lib::proto::command::DeactivateListener { address: l, proxy: t.into(), to_scm: false }).into());
+    }
+    probes.push(RequestType::RemoveCertificate(RemoveCertificate { address: SocketAddress::new_v4(127, 0, 0, 1, 8443), fingerprint: "00".repeat(32) }).into());
+    probes.push(RequestType::RemoveCertificate(RemoveCertificate { address: nowhere, fingerprint: "00".repeat(32) }).into());
+    probes.push(RequestType::RemoveCertificate(RemoveCertificate { address: SocketAddress::new_v4(127, 0, 0, 1, 8443), fingerprint: "zz".into() }).into());
+    let mut all: Vec<ConfigState> = explore_states(&u, depth, cap);
+    all.extend(explore_states(&u2, depth + 2, cap));
+    let (mut n, mut rejected) = (0u64, 0u64);
+    let mut failures: Vec<(String, String)> = vec![];
+    let mut shapes: HashSet<String> = HashSet::new();
+    for s in &all {
+        let want = normalise(s.clone());
+        for r in &probes {
+            n += 1;
+            let mut t = s.clone();
+            if let Err(e) = t.dispatch(r) {
+                rejected += 1;
+                if normalise(t.clone()) != want {
+                    let kind = format!("{:?}", r.request_type).split('(').next().unwrap_or("").to_string();
+                    if shapes.insert(kind.clone()) && failures.len() < 3 {
+                        failures.push((format!("S = [{}]; command {:?}", describe(s), r.request_type).chars().take(1200).collect(), format!("the command was rejected ({e}) but the state changed: afterwards [{}]", describe(&t))));
+                    }
+                }
+            }
+        }
+    }
+    let fjson: Vec<String> = failures.iter().map(|(i, o)| format!("{{\"input\": {i:?}, \"observed\": {o:?}}}")).collect();
+    println!("{{\"bound\": \"every state of two universes explored breadth-first (<= {depth} / {} dispatched requests, capped at {cap} distinct states each) x {} commands (the universes' own plus near misses: removals that match nothing, unknown listeners / clusters, duplicates, bad fingerprints)\", \"states\": {}, \"pairs\": {n}, \"nontrivial_pairs\": {rejected}, \"failures\": [{}]}}", depth + 2, probes.len(), all.len(), fjson.join(", "));
+}
+
+fn main() {
+    use prost::Message;
+    use std::io::{Read, Seek, SeekFrom};
+    let a: Vec<String> = std::env::args().collect();
+    let thorough = a.iter().any(|s| s == "thorough");
+    if a.get(1).map(|s| s == "reject").unwrap_or(false) { reject_mode(thorough); return; }
+    let depth = if thorough { 4 } else { 3 };
+    let cap = if thorough { 1500 } else { 400 };
+    let (u, u2) = build_universes(thorough);
     let mut all: Vec<ConfigState> = explore_states(&u, depth, cap);
     all.extend(explore_states(&u2, depth + 2, cap));
     let (mut n, mut nontrivial) = (0u64, 0u64);
